@@ -1,6 +1,6 @@
 """C11 — the log rejects corruption instead of reinterpreting it."""
 from ..prims import *
-from ..guards import check_strength, check_zip_lengths
+from ..guards import check_strength, check_zip_lengths, check_whole_sequence
 from ..guards import find_guard, side_tokens
 from ..baselines import baseline
 
@@ -110,6 +110,8 @@ def run(ctx):
 
     # ---- R2
     _zip_done = set()
+    _seq_done = set()
+    BYTE_READERS = ("read_segment_bytes",)
     for (path, enum, variant, ta, tb) in GUARDS:
         f = prog.fn(path)
         st, detail = find_guard(prog, f, enum, variant, ta, tb)
@@ -117,6 +119,8 @@ def run(ctx):
         if st == "ok":
             check_strength(rep, "C11.R2", "guard:%s:%s:%s~%s" % (f.name, variant, "+".join(sorted(ta)), "+".join(sorted(tb))), "C11", prog, f, enum, variant, ta, tb)
         check_zip_lengths(rep, "C11.R2", prog, f, _zip_done)
+        if f.name not in BYTE_READERS:   # byte-level readers slice by decoded offsets; their bounds are C13's clause
+            check_whole_sequence(rep, "C11.R2", prog, f, _seq_done)
     ents = {"fs-recovery": [prog.fn(CW + "recover_filesystem_store"), prog.fn(CW + "recover_wal_segment_bytes")],
             "scan": [prog.fn(CW + "recover_from_frames_and_commits")]}
     trees = {}
